@@ -249,6 +249,8 @@ namespace vw
         {
             std::vector<double> f(n);
             long kind = static_cast<long>(r.below(previous ? 7 : 6));
+            if (n >= 36 && cols >= 6 && r.chance(0.12))
+                kind = 7;
             kind_out = kind;
             switch (kind)
             {
@@ -297,6 +299,26 @@ namespace vw
                         f[i] = static_cast<double>(i / cols) + 0.25 * static_cast<double>(i % cols);
                     for (int k = 0; k < 3; ++k)
                         f[r.below(n)] -= static_cast<double>(r.range(1, 3));
+                    break;
+                }
+                case 7:
+                {
+                    // one large bowl surrounded by many one-node pits separated by ridges: many basins, and
+                    // one basin with many neighbouring basins (high-degree nodes of the basin graph)
+                    const double rows = static_cast<double>(n / cols);
+                    const double cx = 0.5 * static_cast<double>(cols - 1), cy = 0.5 * (rows - 1.0);
+                    const double rad = std::max(1.5, std::min(static_cast<double>(cols), rows) / (r.chance(0.5) ? 3.0 : 2.2));
+                    for (std::size_t i = 0; i < n; ++i)
+                    {
+                        double x = static_cast<double>(i % cols), y = static_cast<double>(i / cols);
+                        double d = std::sqrt((x - cx) * (x - cx) + (y - cy) * (y - cy));
+                        if (d <= rad)
+                            f[i] = 1.0 + d;
+                        else if (((i % cols) + (i / cols)) % 2 == 0)
+                            f[i] = 0.25 * static_cast<double>(r.range(0, 3));
+                        else
+                            f[i] = 10.0;
+                    }
                     break;
                 }
                 default:
